@@ -193,10 +193,40 @@ theorem expand_del_marks_full_refuted :
   revert this
   decide
 
+/-- THE PROPERTY'S CLAUSE "an end whose residues were cut off becomes partial", 5' end, with exactly its own
+hypothesis — the first residue read by `l` was removed and something of `l` survives — and NO guard on the shape
+(`outer5Kept` is not assumed; `expandMarkAbs = false` is): false on the model and on the code, known finding K3M.
+Witness `join(1..3,6..8)` minus `[0, 3)` = `join(0^1,3..5)`: the 5' residues `1..3` were cut off, residues `6..8`
+survive, and the result carries no `<`.  The refutation is about the clause, not about a guard: what
+`expand_del_marks5_partial` / `3_partial` prove is the clause for locations whose first (last) residue-bearing leaf
+is a range that KEEPS a residue (`outer5Kept` / `outer3Kept`); a first / last part lying wholly inside the removed
+span — "a feature straddling either edge", "a join whose middle part vanishes" of the quantifier — is outside them. -/
+theorem expand_del_marks5_cut_full_refuted :
+    ¬ (∀ (l : Loc) (i k : Int), wf l = true → 0 < k → expandMarkAbs l i (-k) = false →
+        remAt i k (den l).head? = true → den (expand l i (-k)) ≠ [] →
+        (outerMarks (expand l i (-k))).1 = true) := by
+  intro h
+  have := h (joined [ranged 0 3 false false, ranged 5 8 false false]) 0 3 (by decide) (by decide) (by decide)
+    (by decide) (by decide)
+  revert this
+  decide
+
+/-- … and the 3' end: `join(1..3,6..8)` minus `[5, 8)` = `join(1..3,5^6)`, no `>` -/
+theorem expand_del_marks3_cut_full_refuted :
+    ¬ (∀ (l : Loc) (i k : Int), wf l = true → 0 < k → expandMarkAbs l i (-k) = false →
+        remAt i k (den l).getLast? = true → den (expand l i (-k)) ≠ [] →
+        (outerMarks (expand l i (-k))).2 = true) := by
+  intro h
+  have := h (joined [ranged 0 3 false false, ranged 5 8 false false]) 5 3 (by decide) (by decide) (by decide)
+    (by decide) (by decide)
+  revert this
+  decide
+
 /-- **an end whose residues were cut off becomes partial (5' end)**: for every well-formed
 location of any kind, arity, nesting and strand, if the first residue-bearing leaf in reading
-order is a range that keeps at least one residue (`outer5Kept`, the oracle's own applicability
-test), then after deleting `[i, i+k)` the 5' marker is set iff it was set before or the first
+order is a range that keeps at least one residue (guard `outer5Kept` — it excludes a first part lying
+wholly inside the removed span, for which the property's clause FAILS: `expand_del_marks5_cut_full_refuted`,
+known finding K3M), then after deleting `[i, i+k)` the 5' marker is set iff it was set before or the first
 residue read by `l` (the head of `den l`) was among the removed ones.  Guard: no marker-moving
 rule of `Push` fires in a `Join` of the evaluation (`expandMarkAbs`). -/
 theorem expand_del_marks5_partial (l : Loc) (i k : Int) (hw : wf l = true) (hk : 0 < k)
@@ -204,7 +234,8 @@ theorem expand_del_marks5_partial (l : Loc) (i k : Int) (hw : wf l = true) (hk :
     (outerMarks (expand l i (-k))).1 = ((outerMarks l).1 || remAt i k (den l).head?) :=
   (expand_del_outer l i k hw hk hg).1 h5
 
-/-- **… (3' end)**: if the last residue-bearing leaf is a range that keeps a residue, the 3'
+/-- **… (3' end)**: if the last residue-bearing leaf is a range that keeps a residue (guard `outer3Kept`;
+outside it `expand_del_marks3_cut_full_refuted`, K3M), the 3'
 marker is set afterwards iff it was set or the last residue read by `l` was removed. -/
 theorem expand_del_marks3_partial (l : Loc) (i k : Int) (hw : wf l = true) (hk : 0 < k)
     (hg : expandMarkAbs l i (-k) = false) (h3 : outer3Kept l i k = true) :
